@@ -21,6 +21,17 @@ CHECKS.update({
     technique='property-based testing of request histories against a reference model (Hypothesis), boundary-biased generators'),
 })
 
+CHECKS.update({
+ 'C06': dict(level='exploration', design='3/C06',
+    text='Generated request sequences (all service kinds, CIP-failing ones mixed in, random sender contexts, pipelining groups, bundles) against a real TCP simulator and the in-process twin; replies read to end-of-stream and decoded by the strict reference decoder: count, order, echoed context/session, command, CPF shape, service|0x80. Exploration only.',
+    note='Trusted: CPython, Hypothesis, vp/refcodec.py. "Unsupported/unroutable" is read at CIP level; unknown encapsulation commands are left to C08. A socket timeout is inconclusive, never a violation.',
+    technique='property-based testing of request sequences over TCP and in-process, strict reference decoder as oracle'),
+ 'C07': dict(level='exploration', design='3/C07',
+    text='Differential: generated member lists run one-by-one vs. as one Multiple Service Packet from the same restored tag state; member replies, final states, bundle status and offset-table arithmetic (strict reference decoder) must agree; library producer must regenerate the reference bundle bytes. Exploration only.',
+    note='Trusted: CPython, Hypothesis, vp/refcodec.py, vp/model.py (only to generate valid/invalid members). Members without an individual CIP reply (unknown tag/object, empty Set Attribute Single) are excluded and counted.',
+    technique='differential property-based testing (bundle vs. singles) with a strict reference decoder'),
+})
+
 PENDING = {}
 
 def main():
